@@ -26,7 +26,7 @@ RULE = (
     "case = incidence matrix (2-9 target proteins x 1-9 constructed tryptic peptides: subset chains, shared peptides, "
     "identical proteins) with mirrored decoys in the same relative order, a peptide table = drawn subset of target and "
     "decoy peptides with distinct scores, each optionally decorated (flanks K.X.A / -.X.-, [..] and (..) modifications "
-    "incl. a dot, two modifications on one peptide, lower-case modification letters, a second modified variant), optional extra rollup-level columns (a peptide group coarser than the peptide), proteins route = read_fasta or a "
+    "incl. a dot, two modifications on one peptide, lower-case modification letters, a second modified variant), optional extra rollup-level columns (a peptide group coarser than the peptide), proteins route = read_fasta (complete decoys, one decoy entry missing, or a target-only database) or a "
     "Proteins object built from the reference grouping, PSM table as text or Parquet. Non-trivial: >=1 shared peptide observed and >=1 pair where "
     "both sides have a unique peptide. Distinct = distinct canonical JSON."
 )
@@ -63,6 +63,11 @@ def _case(draw, tier):
     rows[0][0] = 1
     if not rows[-1][1]:
         rows[-1][1] = 1
+    drop_decoy = draw(st.sampled_from([False, False, True]))
+    if drop_decoy and nq < 9:
+        # an isolated protein with a peptide of its own (e.g. a contaminant): the entry whose decoy will be left out
+        rows = [r + [0] for r in rows] + [[0] * nq + [1]]
+        nq += 1
     # peptide table: for each of the 2*nq peptides: absent / present (+ optional second variant)
     table = []
     for side in (0, 1):
@@ -73,7 +78,8 @@ def _case(draw, tier):
                 if present == 3:
                     table.append({"side": side, "j": j, "decor": draw(st.sampled_from(["bracket", "dotmod", "paren"])),
                                   "rank": draw(st.integers(0, 10**6)), "variant": True})
-    return {"matrix": rows, "table": table, "route": draw(st.sampled_from(["fasta", "fasta", "object"])),
+    return {"matrix": rows, "table": table, "route": draw(st.sampled_from(["fasta", "fasta", "object", "fasta-target-only"])),
+            "drop_decoy": drop_decoy,
             "known_order": "mirror", "conf_chunk": draw(st.sampled_from([None, 2, 5])),
             "fmt": draw(st.sampled_from(["tsv", "tsv", "parquet"])),
             "extra_levels": draw(st.sampled_from([[], [], ["PeptideGroup"], ["ModifiedPeptide", "PeptideGroup"], ["Precursor"]]))}
@@ -161,6 +167,23 @@ def check(case):
         seen.add(dec)
         score = float(ranks.index(e["rank"])) + 0.25 * len(rows) / (len(case["table"]) + 1)
         rows.append({"dec": dec, "stripped": stripped, "score": score, "target": e["side"] == 0})
+    route = case["route"]
+    # a database with partial decoys: the decoy entry of one target that forms a group of its own is left out (e.g. a
+    # contaminant appended after decoy generation); its decoy peptides cannot occur in the peptide table then
+    dropped = None
+    if case.get("drop_decoy") and route == "fasta":
+        # only a protein that shares no peptide with any other entry: removing its decoy leaves every other mapping untouched
+        singles = [next(iter(pr["t"])) for pr in pairs if len(pr["t"]) == 1 and all(len(owner[p_]) == 1 for p_ in pr["tp"])]
+        if len(singles) >= 1 and len(pairs) >= 2:
+            dropped = singles[-1]
+            gone = next(pr for pr in pairs if pr["t"] == frozenset([dropped]))["dp"]
+            rows = [r for r in rows if not (not r["target"] and r["stripped"] in gone and len(owner[r["stripped"]]) == 1)]
+            decoys = [d for d in decoys if d[0] != PREFIX + dropped]
+    if route == "fasta-target-only":
+        # decoy groups mirror the targets; a decoy peptide is matched to the unique target peptide of the same composition,
+        # so only decoy peptides whose target twin is unique to a group belong to the domain
+        rows = [r for r in rows if r["target"] or len(owner[r["stripped"]]) == 1]
+        decoys = []
     scores = [r["score"] for r in rows]
     if len(set(scores)) != len(scores) or len(rows) < 2:
         raise Rejected("generator: scores not distinct / fewer than two peptides")
@@ -188,7 +211,8 @@ def check(case):
     with scratch_dir() as tmp:
         fasta = tmp / "db.fasta"
         fasta.write_text("".join(f">{nm}\n{s}\n" for nm, s in targets + decoys))
-        if case["route"] == "fasta":
+        fasta.write_text("".join(f">{nm}\n{s}\n" for nm, s in targets + decoys))
+        if case["route"] in ("fasta", "fasta-target-only"):
             prot = guarded(mokapot.read_fasta, str(fasta), enzyme="[KR]", missed_cleavages=0, min_length=6, max_length=50, decoy_prefix=PREFIX,
                            sig="read_fasta")
         else:
@@ -243,6 +267,8 @@ def check(case):
         require(list(f.columns) == cols, "columns", f"{name}: {list(f.columns)}")
         prev = None
         for d in f.to_dict("records"):
+            require(isinstance(d["mokapot protein group"], str) and d["mokapot protein group"], "unknown-group",
+                    f"{name}: an entry without protein group (best peptide {d.get('best peptide')!r}, score {d.get('score')})")
             members = frozenset(d["mokapot protein group"].split(", "))
             gi = [k for k, pr in enumerate(pairs) if members == (pr["t"] if is_t else pr["d"])]
             require(len(gi) == 1, "unknown-group", f"{name}: group '{d['mokapot protein group']}' is not a protein group of the database")
@@ -285,4 +311,6 @@ def check(case):
         classes.append("decorated")
     if extra:
         classes.append("extra-levels:" + "+".join(extra))
+    if dropped:
+        classes.append("partial-decoys")
     return {"nontrivial": shared_seen and both_sides, "classes": classes, "counters": {"entries_checked": len(order)}}
